@@ -268,6 +268,11 @@ class ByCountProfilerMixin:
                 except BaseException as e:  # throw()/close(): forward to `g`
                     exc = e
 
+        code = getattr(func, '__code__', None)
+        if getattr(code, 'co_flags', 0) & inspect.CO_ITERABLE_COROUTINE:
+            # Generator-based coroutines (`@types.coroutine`) stay awaitable
+            wrapper = types.coroutine(wrapper)
+
         return self._mark_wrapped(wrapper)
 
     def wrap_function(self, func):
